@@ -107,7 +107,7 @@ def gen_one(rng, tier, scale=False):
         c = rng.randrange(nc)
         script = coros[c]['script']
         script.insert(rng.randint(0, len(script)),
-                      {'bad': rng.choice(['str', 'list', 'huge',
+                      {'bad': rng.choice(['str', 'list', 'huge', 'nan', 'nan',
                                           'decimal'])})
     elif not scale and rng.random() < 0.15:
         # one body raises at some step (desper.switch()/quit_loop() called
@@ -289,7 +289,8 @@ def run_case(case):
                 import decimal
                 offender.add(uid)
                 yield {'str': '2', 'list': [1], 'huge': 10 ** 400,
-                       'decimal': decimal.Decimal('0.5')}[item['bad']]
+                       'decimal': decimal.Decimal('0.5'),
+                       'nan': float('nan')}[item['bad']]
                 continue
             if isinstance(item, dict) and 'spawn' in item:
                 k = item['spawn']
